@@ -405,6 +405,161 @@ def cell_cover(rng):
     return out
 
 
+
+class Pool:
+    """a Universe-like carrier for hand-made models (what v_variants / run need)"""
+
+    def __init__(self, vs, params=()):
+        seen, self._vs = set(), []
+        for v in vs:
+            if v.name not in seen:
+                seen.add(v.name)
+                self._vs.append(v)
+        self.params = list(params)
+
+    def all_vars(self):
+        return list(self._vs)
+
+
+def audit_cover(rng, thorough):
+    """input dimensions of the checklist that are ordinary expressions (they run through the whole
+    pipeline: IR tie, V variants, thresholds, Lean Float tie, reference oracle):
+    reflected operator forms and ±const / k· / /k / neg wrappers around every node kind (3), constant-valued
+    compound sub-expressions wherever a number can stand (4), every vector-like / matrix-like operand the API
+    produces (5), names / clones / same-name parameters (6, 7), shared sub-expression objects (9)"""
+    import optyx
+    from optyx import Variable, VectorVariable, MatrixVariable, Parameter
+    from optyx.core.expressions import BinaryOp, Constant, UnaryOp
+    from optyx.core import vectors as V
+    from optyx.core import matrices as M
+
+    out = []
+    U = gen.Universe(rng)
+    a, b, p = U.scalars[0], U.scalars[1], U.params[0]
+    n = U.n
+    cs = np.array([2.0, -1.0, 0.5][:n] + [1.0] * max(0, n - 3))
+    Q = np.array([[(i + 1.0) * (j - 1.0) + (0.5 if i == j else 0.0) for j in range(n)] for i in range(n)])
+    nodes = [("scalar", a * b + 1.0), ("dot", U.x.dot(U.y)), ("dotself", U.x.dot(U.x)), ("vs", U.x.sum()),
+             ("ps", (U.x ** 2).sum()), ("us", optyx.sin(U.x).sum()), ("lc", cs @ U.x), ("qf", M.QuadraticForm(U.x, Q)),
+             ("l2", V.L2Norm(U.x)), ("l1", V.L1Norm(U.y)), ("msv", U.M.sum()), ("mss", U.S.sum()),
+             ("fro", M.FrobeniusNorm(U.S)), ("es", (U.x - U.y).sum()), ("mse", (U.M * U.S).sum()), ("param", p * a)]
+    for nm, f in nodes:
+        f2 = nodes[(len(nm) * 7) % len(nodes)][1]
+        forms = {
+            "c-f": 2.5 - f, "c/f": 2.5 / (f * f + 1.0), "c**f": 2.5 ** (optyx.tanh(f) * 0.5), "c+f": 2.5 + f, "c*f": 2.5 * f,
+            "-f": -f, "f-c": f - 2.5, "f/c": f / 2.5, "f**2": f ** 2, "(K-f)-K2": (7.5 - f) - 1.5, "k*(K-f)": 2.0 * (7.5 - f),
+            "K-k*f": 7.5 - 2.0 * f, "-(K-f)": -(7.5 - f), "f-g": f - f2, "K-(f+g)": 7.5 - (f + f2), "(f-K)*k": (f - 7.5) * -0.5,
+            "f*0": f * 0.0 + b, "0*f": 0.0 * f - b, "f**0": f ** 0 + b, "f**1": f ** 1, "f/1": f / 1.0, "1*f": 1.0 * f,
+            "p-f": p - f, "f/p": f / (p * p + 1.0),
+        }
+        for wn, e in forms.items():
+            out.append((f"form:{wn}:{nm}", e, U))
+    # (4) constant-valued compound sub-expressions as coefficient / term / exponent / denominator
+    two = Constant(1.0) + Constant(1.0)
+    csub = {
+        "coef:fn": optyx.sin(Constant(2.0)) * a + b, "coef:arith": (Constant(3.0) - Constant(1.0)) * a,
+        "term:fn": a + optyx.cos(Constant(0.5)) * p, "exp:arith": (a * a + 1.0) ** two, "exp:param": (a * a + 1.0) ** p,
+        "exp:fn": (a * a + 1.0) ** optyx.tanh(Constant(0.5)), "den:arith": a / (Constant(2.0) * Constant(4.0)),
+        "den:param": a / (p * p + 2.0), "den:fn": a / optyx.exp(Constant(0.5)), "base:const": two ** (a * 0.25),
+        "zero:mul": 0.0 * a + b, "zero:pow": a ** 0 + b, "one:pow": a ** 1 - b, "const:only": two * optyx.sqrt(Constant(2.25)) - two,
+        "vec:const-elems": V.DotProduct(U.x, V.VectorExpression([two, optyx.sin(Constant(1.0)), Constant(0.5) * two][:n] + [two] * max(0, n - 3))),
+        "lc:const-exprs": V.LinearCombination(cs, V.VectorExpression([two * U.x[i] + optyx.cos(Constant(0.0)) for i in range(n)])),
+        "es:consts": V.VectorExpression([two, Constant(0.5), p][:n] + [two] * max(0, n - 3)).sum() * a,
+    }
+    for nm, e in csub.items():
+        out.append((f"constsub:{nm}", e, U))
+    # (5) every vector-like / matrix-like operand
+    x = VectorVariable("x", 6)
+    z = VectorVariable("z", 4)
+    X = MatrixVariable("X", 3, 4)
+    S = MatrixVariable("S", 3, 3, symmetric=True)
+    R = MatrixVariable("R", 1, 3)
+    Cc = MatrixVariable("C", 3, 1)
+    u1 = VectorVariable("u", 1)
+    P6 = Pool(list(x) + list(z) + X.get_variables() + S.get_variables() + R.get_variables() + Cc.get_variables() + list(u1),
+              [Parameter("p", 1.5), Parameter("q", -0.5)])
+    A3 = np.array([[1.0, -2.0, 0.5], [0.25, 3.0, -1.0], [2.0, 0.0, 1.5]])
+    vecs = {
+        "slice-of-slice": x[1:5][::2], "neg-stride": x[::-2], "len1-view": x[2:3], "len1": u1, "row": X[0, :], "col": X[:, 1],
+        "diag": S.diagonal(), "sym-row": S[0, :], "sym-col": S[:, 2], "strided": x[0:6:2], "rev": x[::-1][0:3],
+        "mat@vec": X @ z, "A@nonlin": M.MatrixVectorProduct(A3, V.VectorExpression([optyx.sin(x[i]) * x[i + 1] for i in range(3)])),
+        "elemwise": x[0:3] * x[3:6], "row-of-T": X.T[1, :], "col-of-block": X[0:2, 1:3][:, 0], "R-row": R[0, :], "C-col": Cc[:, 0],
+        "sym-block-row": S[0:2, 1:3][0, :],
+    }
+    for vn, v in vecs.items():
+        m = v.size
+        csm = np.array([[2.0, -1.0, 0.5, 3.0, -0.25, 1.5][i % 6] for i in range(m)])
+        Qm = np.array([[(i + 1.0) * (j - 1.0) + (0.5 if i == j else 0.0) for j in range(m)] for i in range(m)])
+        is_vv = isinstance(v, V.VectorVariable)
+        other = x[0:m] if m <= 6 else None
+        out.append((f"view:lc:{vn}", V.LinearCombination(csm, v), P6))
+        out.append((f"view:l2:{vn}", V.L2Norm(v), P6))
+        out.append((f"view:l1:{vn}", V.L1Norm(v), P6))
+        out.append((f"view:qf:{vn}", M.QuadraticForm(v, Qm), P6))
+        out.append((f"view:dotself:{vn}", V.DotProduct(v, v), P6))
+        if other is not None:
+            out.append((f"view:dot-l:{vn}", V.DotProduct(v, other), P6))
+            out.append((f"view:dot-r:{vn}", V.DotProduct(other, v), P6))
+        out.append((f"view:sum:{vn}", v.sum(), P6))
+        if is_vv:
+            out.append((f"view:ps:{vn}", (v ** 3).sum(), P6))
+            out.append((f"view:us:{vn}", optyx.cos(v).sum(), P6))
+            out.append((f"view:A@v", (Qm @ v).sum(), P6))
+    mats = {"T": X.T, "block": X[0:2, 1:3], "block.T": X[0:2, 1:3].T, "strided": X[::2, ::3], "sym": S, "sym.T": S.T,
+            "sym-diag-block": S[0:2, 0:2], "sym-offdiag-block": S[0:2, 1:3], "sym-rect": S[0:3, 1:3], "1xn": R, "nx1": Cc,
+            "T-of-1xn": R.T}
+    for mn, m in mats.items():
+        out.append((f"mat:sum:{mn}", m.sum(), P6))
+        out.append((f"mat:fro:{mn}", M.FrobeniusNorm(m), P6))
+        out.append((f"mat:expr-sum:{mn}", (m * m - 0.5).sum(), P6))
+        out.append((f"mat:2m-sum:{mn}", (2.0 * m).sum() - m.sum(), P6))
+    out.append(("mat:trace", S.trace() + optyx.trace(X[0:3, 0:3]), P6))
+    out.append(("mat:sym-quad", M.QuadraticForm(S[0, :], A3) - M.FrobeniusNorm(S) * M.FrobeniusNorm(S), P6))
+    # (6, 7) names and identity: long vectors (x[10] vs x[1]), digit runs, leading zeros, prefixes, a scalar clone of an
+    # element, two vectors / parameters with one name
+    x12 = VectorVariable("x", 12)
+    sc = [Variable(nm) for nm in ("x1", "x01", "x10", "x", "x[1", "x1]", "a,b", "x[1]")]  # the last one clones x12[1] by name
+    PN = Pool(list(x12) + sc[:-1], [Parameter("p", 2.0), Parameter("p", 7.0)])
+    p1, p2 = PN.params
+    out.append(("names:x12:vs", x12.sum() * 0.125 + x12[10] - x12[1], PN))
+    out.append(("names:x12:lc", V.LinearCombination(np.arange(12) * 0.25 - 1.0, x12), PN))
+    out.append(("names:x12:dot", x12[0:6].dot(x12[6:12]), PN))
+    out.append(("names:scalars", sc[0] - 2.0 * sc[1] + 3.0 * sc[2] - sc[3] * sc[4] + sc[5] / 4.0 - sc[6], PN))
+    out.append(("names:clone-of-element", x12.sum() + 2.0 * sc[7], PN))
+    out.append(("names:clone-dot", V.DotProduct(x12[0:3], V.VectorExpression([sc[7], x12[1], sc[7] * x12[2]])), PN))
+    xb = VectorVariable("x", 12)  # a second vector object with the same label and element names
+    out.append(("names:two-vectors-one-label", x12.dot(xb) - xb.sum(), PN))
+    out.append(("names:same-name-params", p1 * x12[0] + p2 - p1 / (p2 * p2 + 1.0), PN))
+    out.append(("names:same-name-params-vec", p1 * x12[0:3].dot(x12[3:6]) - p2 * x12.sum(), PN))
+    # (9) one compound sub-expression OBJECT at several places
+    t = optyx.sin(a) * b + 1.0
+    d = U.x.dot(U.y)
+    sh = {"scalar": t * t + t / (t * t + 1.0), "node": d * d - d, "in-vector": V.DotProduct(V.VectorExpression([t, t, d][:n] + [t] * max(0, n - 3)), U.x),
+          "twice-in-sum": V.VectorExpression([t] * n).sum() - t, "under-unary": optyx.tanh(t) - optyx.tanh(t) * t,
+          "param-shared": (p * a) * (p * a) + p}
+    for nm, e in sh.items():
+        out.append((f"shared:{nm}", e, U))
+    return out
+
+
+def zigzag_chains(rng, thorough):
+    """alternating left / right nesting (the left-spine estimate sees about half of the depth)"""
+    out = []
+    for n in ([50, 401, 600] if thorough else [50, 401]):
+        U = gen.Universe(rng)
+        vs = U.all_vars()
+        for op in ["+", "-", "*"]:
+            e = vs[0]
+            for i in range(n):
+                t = vs[(i + 1) % len(vs)] * 0.5 if op != "*" else gen.unary("tanh", vs[(i + 1) % len(vs)]) * 0.125 + 1.0
+                if i % 2 == 0:
+                    e = {"+": e + t, "-": e - t, "*": e * t}[op]
+                else:
+                    e = {"+": t + e, "-": t - e, "*": t * e}[op]
+            out.append((f"zigzag{op}:{n}", e, U))
+    return out
+
+
 def chains(rng, thorough):
     """left-deep chains around the switch (399/400/401) and beyond, all operators"""
     from optyx.core.expressions import Constant
@@ -548,7 +703,7 @@ def run(ctx) -> core.Report:
                            "399/400/401(/900) + seeded random trees, each × V ∈ {own, permutation, strict superset} "
                            "(+ duplicate / missing variable) × threshold ∈ {0,3,400}; non-trivial = distinct "
                            "(expression, V, point) with at least one variable whose value is finite")
-    exprs = list(cell_cover(rng)) + chains(rng, thorough)
+    exprs = list(cell_cover(rng)) + audit_cover(rng, thorough) + chains(rng, thorough) + zigzag_chains(rng, thorough)
     n_rand = 25000 if thorough else 2000
     depth_hi = 6 if thorough else 4
     for i in range(n_rand):
@@ -557,6 +712,8 @@ def run(ctx) -> core.Report:
         exprs.append(("rand-safe" if safe else "rand", gen.rand_expr(rng, U, rng.randint(1, depth_hi), safe=safe), U))
 
     ids = Ids()
+    rep._mismatch_cases = []  # (expr text, variable names, parameter values) of the cases the model disagrees on
+    ctx["_c01_mismatch_cases"] = rep._mismatch_cases
     lines, metas = [], []  # Lean protocol lines and what they belong to
 
     def add(line, meta):
@@ -579,7 +736,7 @@ def run(ctx) -> core.Report:
         params = list(U.params)
         variants = v_variants(rng, e, U)
         own = variants[0][1]
-        deep = tag.startswith("chain")
+        deep = tag.startswith(("chain", "zigzag"))
         if tag.startswith("span:"):
             import itertools
 
@@ -670,6 +827,8 @@ def run(ctx) -> core.Report:
     def mism(c, what, impl, mod):
         rep.corr_mismatches.append({"what": what, "tag": c["tag"], "V": c["vtag"], "expr": c["s"][:400],
                                     "vars": c["vtxt"][:200], "impl": str(impl)[:400], "model": str(mod)[:400]})
+        if len(c["s"]) < 20000:
+            rep._mismatch_cases.append((c["s"], [v.name for v in c["V"]], {p.name: v for p, v in c["newp"].items()}))
 
     for ci, c in enumerate(cases):
         # ---- structural tie: IR and builder, all thresholds
@@ -735,6 +894,8 @@ def run(ctx) -> core.Report:
     rep.histogram["cases"] = len(cases)
     rep.histogram["numeric_points"] = sum(1 for c in cases if c.get("ref") is not None and c.get("cond"))
     magnitude_section(rep, rng, thorough, ids)
+    special_section(rep, rng, thorough, ids)
+    history_section(rep, rng, thorough)
     return rep
 
 
@@ -1011,6 +1172,407 @@ def magnitude_section(rep, rng, thorough, ids):
     rep.histogram["magnitude_points"] = n_ok
 
 
+
+# ----------------------------------------------------------------------------- near-singular points, exponents, number types
+
+
+class NoMargin:
+    """oracle.ref_eval with its regularity margin switched off: the reference is defined on the whole
+    domain (x > 0 for log / sqrt / real powers, x ≠ 0 for division), also 1e-9 away from the singular set"""
+
+    def __enter__(self):
+        self.old = oracle.MARGIN
+        oracle.MARGIN = 0.0
+
+    def __exit__(self, *a):
+        oracle.MARGIN = self.old
+
+
+def loose_ref(e, pt):
+    with NoMargin():
+        try:
+            v = float(oracle.prim(oracle.ref_eval(e, dict(pt))))
+        except (oracle.NotRegular, OverflowError, ZeroDivisionError, ValueError, KeyError):
+            return None
+    return v if math.isfinite(v) else None
+
+
+def check_loose(e, V, pt, thr, rtol=1e-9):
+    """the four observables against the margin-free reference, at points where the reference is stable under
+    a 1e-13 relative perturbation; None = holds, 'skip' = not judged"""
+    import optyx.core.compiler as C
+
+    want = loose_ref(e, pt)
+    if want is None:
+        return "skip"
+    for sgn in (1.0, -1.0):
+        w2 = loose_ref(e, {k: v * (1 + sgn * 1e-13) for k, v in pt.items()})
+        if w2 is None or abs(w2 - want) > 1e-10 * abs(want) + 1e-300:
+            return "skip"
+    old = C._RECURSION_THRESHOLD
+    try:
+        C._RECURSION_THRESHOLD = thr
+        C._compile_cached.cache_clear()
+        arr = np.array([pt[v.name] for v in V], dtype=float)
+        obs = {
+            "compile_expression(e,V)(x)": call(lambda: C.compile_expression(e, V)(arr)),
+            "e.evaluate(values)": call(lambda: e.evaluate(dict(pt))),
+            "compile_to_dict_function(e,V)(values)": call(lambda: C.compile_to_dict_function(e, V)(dict(pt))),
+            "CompiledExpression.value": call(lambda: C.CompiledExpression(e, V).value(arr)),
+        }
+    finally:
+        C._RECURSION_THRESHOLD = old
+        C._compile_cached.cache_clear()
+    for nm, (got, err) in obs.items():
+        if got is None:
+            f = {"what": f"{nm} raised {err} at a point of the domain", "want": want, "observable": nm}
+            if err == "int_negative_power":
+                f["kind"] = "int_negative_power"
+            return f
+        if not (abs(got - want) <= rtol * abs(want) + 1e-300):
+            return {"what": f"{nm} differs from the mathematical value (relative tolerance {rtol})", "got": got,
+                    "want": want, "observable": nm}
+    return None
+
+
+TINY = [1e-7, -1e-7, 1e-9, -1e-9, 1e-150, -1e-150, 1e-300]
+EXPONENTS = [1e-12, 1e-9, 1e-8, 1e-7, 0.5, 2.5, -0.5, -3.0, 30.0, 1.0 + 2 ** -30, 2.0, 3.0]
+
+
+def special_cases(rng, thorough):
+    """(tag, expression, V, point, params, judge) with judge ∈ {'exact', 'loose'}"""
+    import optyx
+    from optyx import Variable, VectorVariable, MatrixVariable, Parameter
+    from optyx.core.expressions import BinaryOp, Constant, UnaryOp
+    from optyx.core import vectors as V
+    from optyx.core import matrices as M
+
+    out = []
+    reps = 12 if thorough else 3
+    for r in range(reps):
+        a, b = Variable("a"), Variable("b")
+        x = VectorVariable("x", 3)
+        X = MatrixVariable("X", 2, 2)
+        # ---- points NEAR the singular sets (they are in the domain)
+        for t in TINY:
+            o = rng.choice([0.5, 2.0, -3.0, 1e3])
+            pos = abs(t)
+            near = [
+                ("1/x", 1.0 / a, {a: t}), ("c/x", o / a, {a: t}), ("y/x", b / a, {a: t, b: o}), ("x**-1", a ** -1.0, {a: t}),
+                ("x**-2", a ** -2.0, {a: t}), ("1/(x*y)", 1.0 / (a * b), {a: t, b: o}), ("1/(x-c)", 1.0 / (a - o), {a: o + o * 1e-9}),
+                ("abs", optyx.abs_(a) * o, {a: t}), ("l1", V.L1Norm(x), {x[0]: t, x[1]: -t, x[2]: t * 0.5}),
+                ("x/abs", a / optyx.abs_(a), {a: t}),
+            ]
+            nearpos = [
+                ("log", optyx.log(a), {a: pos}), ("log2", optyx.log2(a), {a: pos}), ("log10", optyx.log10(a), {a: pos}),
+                ("sqrt", optyx.sqrt(a), {a: pos}), ("x**0.5", a ** 0.5, {a: pos}), ("x**-0.5", a ** -0.5, {a: pos}),
+                ("l2", V.L2Norm(x), {x[0]: pos, x[1]: -pos, x[2]: pos * 0.5}), ("fro", M.FrobeniusNorm(X), {v: pos for v in X.get_variables()}),
+                ("us:log", V.VectorUnarySum(x, "log"), {x[0]: pos, x[1]: 1.0, x[2]: pos * 3}),
+                ("us:sqrt", V.VectorUnarySum(x, "sqrt"), {x[0]: pos, x[1]: 1.0, x[2]: pos * 3}),
+                ("ps-1", V.VectorPowerSum(x, -1), {x[0]: pos, x[1]: 1.0, x[2]: -pos}),
+                ("ps0.5", V.VectorPowerSum(x, 0.5), {x[0]: pos, x[1]: 1.0, x[2]: pos * 3}),
+                ("acosh", optyx.acosh(a), {a: 1.0 + min(pos * 1e3, 0.5)}), ("asin", optyx.asin(a), {a: 1.0 - min(pos * 1e3, 0.5)}),
+                ("atanh", optyx.atanh(a), {a: 1.0 - min(max(pos, 1e-12) * 1e3, 0.5)}),
+            ]
+            for nm, e, ptv in near + nearpos:
+                if abs(t) < 1e-100 and nm in ("x**-2", "1/(x*y)", "ps-1"):
+                    continue  # overflow of the value itself
+                VV = sorted(ptv, key=lambda v: v.name)
+                out.append((f"near:{nm}", e, VV, {v.name: float(val) for v, val in ptv.items()}, {}, "loose"))
+        # ---- exponents of every magnitude (real powers: positive base)
+        for k in EXPONENTS:
+            base = rng.choice([0.5, 1.5, 3.0, 1.0 + 2 ** -20, 1e-3, 1e3 if abs(k) <= 3 else 2.0])
+            p = Parameter("p", k)
+            forms = [("x**k", a ** k, {a: base}), ("x**Constant(k)", BinaryOp(a, Constant(k), "**"), {a: base}),
+                     ("(xy)**k", (a * b) ** k, {a: base, b: 2.0}), ("x**p", a ** p, {a: base}),
+                     ("k**x", Constant(abs(k) + 0.5) ** a, {a: rng.choice([-2.0, 0.5, 3.0])}),
+                     ("ps(k)", V.VectorPowerSum(x, k), {x[0]: base, x[1]: 2.0, x[2]: 0.25})]
+            for nm, e, ptv in forms:
+                VV = sorted(ptv, key=lambda v: v.name)
+                out.append((f"exponent:{nm}", e, VV, {v.name: float(val) for v, val in ptv.items()}, {p: k}, "loose"))
+        # ---- numeric TYPES of every stored number (values that every type holds exactly)
+        scal = [("int", 3), ("float", 3.0), ("bool", True), ("np.bool_", np.bool_(True)), ("0-d", np.array(3.0)), ("0-d-int", np.array(3))]
+        for dt in (np.uint8, np.uint16, np.uint32, np.uint64, np.int8, np.int16, np.int32, np.int64, np.float16, np.float32, np.float64):
+            scal.append((dt.__name__, dt(3)))
+        for tn, c in scal:
+            pt = {a.name: rng.choice([-2.5, 0.75, 4.0]), b.name: rng.choice([1.5, -0.25])}
+            forms = [("x*c", a * c), ("c*x", c * a if not isinstance(c, (np.generic, np.ndarray)) else Constant(c) * a),
+                     ("x-c", a - c), ("C(c)-x", Constant(c) - a), ("x/c", a / c), ("C(c)/x", Constant(c) / (a * a + 1.0)),
+                     ("x**c", (a * a + 1.0) ** c), ("C(c)**x", Constant(c) ** (a * 0.25)), ("-C(c)*x", -(Constant(c) * a)),
+                     ("x+C(c)*y", a + Constant(c) * b)]
+            for nm, e in forms:
+                out.append((f"type:scalar:{tn}:{nm}", e, [a, b], pt, {}, "exact" if "**x" not in nm else "loose"))
+        base_arr = [2.0, 0.0, 3.0]
+        arrs = [("list", [2.0, 0.0, 3.0]), ("int-list", [2, 0, 3]), ("tuple", (2.0, 0.0, 3.0)), ("bool", np.array([True, False, True])),
+                ("noncontig", np.array([2.0, 9.0, 0.0, 9.0, 3.0])[::2]), ("neg-stride", np.array([3.0, 0.0, 2.0])[::-1]),
+                ("row-of-F", np.asfortranarray(np.array([[2.0, 0.0, 3.0], [9.0, 9.0, 9.0]]))[0])]
+        for dt in (np.uint8, np.uint64, np.int8, np.int32, np.int64, np.float16, np.float32, np.float64):
+            arrs.append((dt.__name__, np.array([2, 0, 3], dtype=dt)))
+        Qb = [[1.0, 2.0, 0.0], [0.0, -1.0, 3.0], [2.0, 0.0, 1.0]]
+        mats = [("list", Qb), ("int32", np.array(Qb, dtype=np.int32)), ("uint8", np.abs(np.array(Qb)).astype(np.uint8)),
+                ("float32", np.array(Qb, dtype=np.float32)), ("F-order", np.asfortranarray(np.array(Qb))),
+                ("transposed-view", np.array(Qb).T.copy().T), ("strided", np.kron(np.array(Qb), np.ones((2, 2)))[::2, ::2])]
+        pt = {x[i].name: [1.5, -2.0, 0.25][i] for i in range(3)}
+        for tn, c in arrs:
+            for nm, mk in (("LinearCombination", lambda: V.LinearCombination(c, x)), ("c@x", lambda: c @ x if isinstance(c, np.ndarray) else np.asarray(c) @ x)):
+                try:
+                    e = mk()
+                except Exception as ex:  # noqa: BLE001
+                    out.append((f"type:array:{tn}:{nm}", ex, list(x), pt, {}, "construct"))
+                    continue
+                out.append((f"type:array:{tn}:{nm}", e, list(x), pt, {}, "exact"))
+        for tn, Qm in mats:
+            for nm, mk in (("QuadraticForm", lambda: M.QuadraticForm(x, Qm)), ("A@x.sum", lambda: (np.asarray(Qm) @ x).sum()),
+                           ("MatrixVectorProduct", lambda: V.DotProduct(x, M.MatrixVectorProduct(Qm, x)))):
+                try:
+                    e = mk()
+                except Exception as ex:  # noqa: BLE001
+                    out.append((f"type:matrix:{tn}:{nm}", ex, list(x), pt, {}, "construct"))
+                    continue
+                out.append((f"type:matrix:{tn}:{nm}", e, list(x), pt, {}, "exact"))
+        for tn, k in (("int", 2), ("float", 2.0), ("np.int64", np.int64(2)), ("np.float32", np.float32(2)), ("np.uint8", np.uint8(2)), ("bool", True)):
+            out.append((f"type:power:{tn}:ps", V.VectorPowerSum(x, k), list(x), pt, {}, "exact"))
+            out.append((f"type:power:{tn}:x**k.sum", (x ** k).sum(), list(x), pt, {}, "exact"))
+            out.append((f"type:power:{tn}:scalar", x[0] ** k + x[1], list(x), pt, {}, "exact"))
+        for tn, val in (("int", 3), ("np.float32", np.float32(0.5)), ("np.int64", np.int64(-2)), ("bool", True), ("np.uint8", np.uint8(3))):
+            pp = Parameter("p", val)
+            out.append((f"type:param:{tn}", pp * x[0] - x[1] / (pp * pp + 1.0), list(x), pt, {}, "exact"))
+    return out
+
+
+def special_section(rep, rng, thorough, ids):
+    n_ok = 0
+    for i, (tag, e, V, pt, pset, judge) in enumerate(special_cases(rng, thorough)):
+        key = ":".join(tag.split(":")[:2])
+        rep.histogram[key] = rep.histogram.get(key, 0) + 1
+        if judge == "construct":
+            rep.skipped[f"constructor rejected the operand ({type(e).__name__}): {tag}"] = 1
+            continue
+        for p, v in pset.items():
+            p.set(v)
+        thr = THRESHOLDS[i % 3]
+        r = check_exact(e, V, pt, thr) if judge == "exact" else check_loose(e, V, pt, thr)
+        if r == "skip" and judge == "exact":
+            r = check_loose(e, V, pt, thr)
+        if r == "skip":
+            rep.skipped["special case: reference undefined / ill-conditioned"] = rep.skipped.get(
+                "special case: reference undefined / ill-conditioned", 0) + 1
+            continue
+        if r is not None:
+            try:
+                sx = Ser(ids).expr(e)
+            except Unsupported:
+                sx = None
+            r.update({"expr": sx, "vars": [v.name for v in V], "point": pt, "threshold": thr, "judge": judge,
+                      "params": {p.name: (float(v) if not isinstance(v, bool) else v) for p, v in pset.items()}, "tag": tag})
+            rep.oracle_failures.append(r)
+        else:
+            n_ok += 1
+            rep.nontrivial.add(hash((tag, tuple(pt.values()), i)))
+    rep.evaluations += n_ok
+    rep.histogram["special_points"] = n_ok
+
+
+
+# ----------------------------------------------------------------------------- histories, call sequences, lifetime, aliasing
+
+
+def low_precision(e) -> bool:
+    """a float16 / float32 number stored in a Constant or Parameter (known finding: tree evaluation with Python-float
+    values then runs in that precision)"""
+    from optyx.core.expressions import BinaryOp, Constant, UnaryOp
+    from optyx.core.parameters import Parameter
+
+    stack = [e]
+    while stack:
+        n = stack.pop()
+        if isinstance(n, (Constant, Parameter)):
+            v = n.value
+            if isinstance(v, (np.ndarray, np.generic)) and v.dtype in (np.float16, np.float32):
+                return True
+        elif isinstance(n, BinaryOp):
+            stack += [n.left, n.right]
+        elif isinstance(n, UnaryOp):
+            stack.append(n.operand)
+        else:
+            for attr in ("vector", "left", "right", "expression"):
+                sub = getattr(n, attr, None)
+                if sub is not None and hasattr(sub, "_expressions"):
+                    stack += list(sub._expressions)
+    return False
+
+
+def ref_at(e, pt):
+    try:
+        v = float(oracle.prim(oracle.ref_eval(e, dict(pt))))
+    except (oracle.NotRegular, OverflowError, ZeroDivisionError, ValueError, KeyError):
+        return None
+    return v if well_conditioned(e, pt) else None
+
+
+def history_section(rep, rng, thorough):
+    """no cache is cleared inside one history: compile for several variable orders, re-compile (cache hit), a rejected
+    compilation in between, derived quantities queried first, parameters set between calls, the same callable called
+    twice / on an array mutated in place / at a singular point and then at a regular one / at ±0.0, twin models with
+    the same names, models dropped and rebuilt (id reuse); user arrays must be bit-identical afterwards"""
+    import gc
+    import optyx
+    import optyx.core.compiler as C
+    import optyx.core.autodiff as AD
+    from optyx import Variable, VectorVariable, Parameter
+    from optyx.core import vectors as V
+    from optyx.core import matrices as M
+
+    fails = rep.oracle_failures
+    C._compile_cached.cache_clear()
+
+    def judge(what, e, VV, pt, got, extra):
+        want = ref_at(e, pt)
+        rep.histogram["history_points"] = rep.histogram.get("history_points", 0) + 1
+        if want is None:
+            return
+        val, err = got
+        if val is None or not same(val, want):
+            try:
+                sx = ser(e)
+            except Unsupported:
+                sx = None
+            fails.append(dict(extra, what=f"{what}: " + (f"raised {err}" if val is None else "value differs from the mathematical value"),
+                              got=val, want=want, expr=sx, vars=[v.name for v in VV], point=pt, history=True))
+
+    rounds = 120 if thorough else 30
+    for r in range(rounds):
+        U = gen.Universe(rng)
+        e = gen.rand_expr(rng, U, rng.randint(1, 4), safe=True)
+        if has_f20_shape(e):
+            continue
+        own = gen.expr_vars(e)
+        if not own:
+            continue
+        V1 = list(own)
+        V2 = list(own); rng.shuffle(V2)
+        V3 = V2 + [v for v in U.all_vars() if v.name not in {w.name for w in own}][:2]; rng.shuffle(V3)
+        extra = {"tag": "history:cache", "round": r}
+        # derived quantities first
+        if r % 3 == 0:
+            guardedq = [lambda: e.degree, lambda: AD.gradient(e, own[0]), lambda: e.get_variables()]
+            for q in guardedq:
+                try:
+                    q()
+                except Exception:  # noqa: BLE001
+                    pass
+        if r % 4 == 0 and len(own) > 1:
+            try:
+                C.compile_expression(e, V1[1:])  # rejected: a variable is missing
+            except KeyError:
+                pass
+            except Exception as ex:  # noqa: BLE001
+                fails.append(dict(extra, what=f"compile with a missing variable raised {type(ex).__name__}, not KeyError"))
+        f1 = C.compile_expression(e, V1)
+        f2 = C.compile_expression(e, V2)
+        f3 = C.compile_expression(e, V3)
+        f1b = C.compile_expression(e, V1)  # cache hit
+        # a twin model: same names, same structure, its own parameter objects and values
+        st = rng.getstate()
+        for p in U.params:
+            p.set(rng.dy())
+        pt = gen.rand_point(rng, V3)
+        for nm, f, VV in (("first order", f1, V1), ("permuted order", f2, V2), ("superset order", f3, V3), ("re-compiled (cached)", f1b, V1)):
+            arr = np.array([pt[v.name] for v in VV], dtype=float)
+            keep = arr.copy()
+            got = call(lambda: f(arr))
+            judge(f"compiled for the {nm}", e, VV, pt, got, extra)
+            if not np.array_equal(arr, keep):
+                fails.append(dict(extra, what="the point array was modified by the compiled callable"))
+            # same callable: same point twice, then the same array object mutated in place
+            got2 = call(lambda: f(arr))
+            if got[0] is not None and got2[0] is not None and repr(got[0]) != repr(got2[0]):
+                fails.append(dict(extra, what="the same callable returned two different values at one point", got=[got[0], got2[0]]))
+            pt2 = gen.rand_point(rng, V3)
+            arr[:] = [pt2[v.name] for v in VV]
+            judge(f"compiled for the {nm}, array mutated in place", e, VV, pt2, call(lambda: f(arr)), extra)
+        # parameters set between calls (incl. 0, 1, sign flips)
+        for p in U.params:
+            p.set(rng.choice([0.0, 1.0, -float(p.value), rng.dy()]))
+        arr = np.array([pt[v.name] for v in V2], dtype=float)
+        judge("after Parameter.set between calls", e, V2, pt, call(lambda: f2(arr)), extra)
+        judge("evaluate after Parameter.set", e, V2, pt, call(lambda: e.evaluate(dict(pt))), extra)
+    # ---- singular → regular → singular on one callable; ±0.0
+    a, b = Variable("a"), Variable("b")
+    x = VectorVariable("x", 3)
+    sing = [("1/a", 1.0 / a + b, {"a": 0.0}), ("log", optyx.log(a) * b, {"a": 0.0}), ("sqrt(neg)", optyx.sqrt(a) + b, {"a": -1.0}),
+            ("a**-1", a ** -1.0 - b, {"a": 0.0}), ("b/a", b / a, {"a": 0.0}), ("l2-grad-shape", a / V.L2Norm(x), {"x[0]": 0.0, "x[1]": 0.0, "x[2]": 0.0}),
+            ("acosh", optyx.acosh(a) + b, {"a": 0.5}), ("tan-pole", optyx.tan(a) * b, {"a": math.pi / 2})]
+    for nm, e, bad in sing:
+        VV = gen.expr_vars(e)
+        f = C.compile_expression(e, VV)
+        for k in range(4 if thorough else 2):
+            good = {v.name: rng.choice([0.75, 1.5, 2.25, 3.0]) for v in VV}
+            for ptb in (dict(good, **bad), good, dict(good, **bad), good):
+                arr = np.array([ptb[v.name] for v in VV], dtype=float)
+                got = call(lambda: f(arr))
+                if ptb is good:
+                    judge(f"regular point after a singular one ({nm})", e, VV, good, got, {"tag": "history:singular"})
+    for nm, e in (("a+1", a + 1.0), ("abs", optyx.abs_(a) + b), ("a*b", a * b - b), ("sqrt", optyx.sqrt(a * a) + b), ("dot", x.dot(x) + a),
+                  ("l1", V.L1Norm(x) - a), ("sin", optyx.sin(a) + optyx.cos(b))):
+        VV = gen.expr_vars(e)
+        f = C.compile_expression(e, VV)
+        for z in (0.0, -0.0):
+            ptz = {v.name: z for v in VV}
+            if "b" in ptz:
+                ptz["b"] = 1.5
+            arr = np.array([ptz[v.name] for v in VV], dtype=float)
+            try:
+                want = float(oracle.prim(oracle.ref_eval(e, {k: (v + 0.0) for k, v in ptz.items()})))
+            except oracle.NotRegular:
+                with NoMargin():
+                    try:
+                        want = float(oracle.prim(oracle.ref_eval(e, ptz)))
+                    except oracle.NotRegular:
+                        continue
+            for what, got in (("compiled", call(lambda: f(arr))), ("evaluate", call(lambda: e.evaluate(dict(ptz))))):
+                rep.histogram["history_points"] = rep.histogram.get("history_points", 0) + 1
+                if got[0] is None or not same(got[0], want):
+                    fails.append({"tag": "history:signed-zero", "what": f"{what} at {z!r} ({nm})", "got": got[0], "want": want,
+                                  "history": True})
+    # ---- user arrays stay bit-identical (coefficients, matrices, the point)
+    cs = np.array([2.0, -1.0, 0.5]); Q = np.array([[1.0, 2.0, 0.0], [0.0, -1.0, 3.0], [2.0, 0.0, 1.0]])
+    keep_cs, keep_Q = cs.tobytes(), Q.tobytes()
+    es = [V.LinearCombination(cs, x), cs @ x, M.QuadraticForm(x, Q), (Q @ x).sum(), x.dot(Q @ x), V.DotProduct(x, Q @ x)]
+    ptx = {x[i].name: [1.5, -2.0, 0.25][i] for i in range(3)}
+    for e in es:
+        f = C.compile_expression(e, list(x))
+        arr = np.array([1.5, -2.0, 0.25])
+        f(arr); e.evaluate(dict(ptx)); AD.gradient(e, x[0]); _ = e.degree
+        judge("array-backed node", e, list(x), ptx, call(lambda: f(arr)), {"tag": "history:alias"})
+        if cs.tobytes() != keep_cs or Q.tobytes() != keep_Q or not np.array_equal(arr, [1.5, -2.0, 0.25]):
+            fails.append({"tag": "history:alias", "what": "a user-supplied array was modified", "history": True})
+    # ---- lifetime: same-named models dropped and rebuilt, caches never cleared
+    for r in range(200 if thorough else 40):
+        pv = rng.dy()
+        p = Parameter("p", pv)
+        y = VectorVariable("y", 3)
+        k = rng.choice([1.0, 2.0, -0.5])
+        shape = r % 4
+        e = [p * y.dot(y) + k, (y ** 2).sum() * p - y[0] * k, p + y[1] * k, V.L2Norm(y + 1.0) * p * k][shape]
+        VV = list(y)
+        if r % 2:
+            VV = VV[::-1]
+        pty = gen.rand_point(rng, VV)
+        f = C.compile_expression(e, VV)
+        judge("rebuilt model with the same names", e, VV, pty, call(lambda: f(np.array([pty[v.name] for v in VV]))), {"tag": "history:lifetime", "round": r})
+        if shape == 2:
+            f0 = C.compile_expression(p, VV)  # bare Parameter: never shared between same-named parameters
+            got = call(lambda: f0(np.array([pty[v.name] for v in VV])))
+            if got[0] is None or got[0] != pv:
+                fails.append({"tag": "history:lifetime", "what": "compiled bare Parameter returns another parameter's value",
+                              "got": got[0], "want": pv, "history": True})
+        del e, f, p, y
+        if r % 10 == 0:
+            gc.collect()
+    C._compile_cached.cache_clear()
+
+
 # ----------------------------------------------------------------------------- search / replay
 
 
@@ -1048,8 +1610,54 @@ def check_point(e, V, pt, newp, thr):
     return None
 
 
+def probe_points(rng, names, k):
+    """many points for one expression: all sign patterns (few variables), near-singular and large coordinates, random"""
+    import itertools
+
+    pts = []
+    if len(names) <= 4:
+        for signs in itertools.product((1.0, -1.0), repeat=len(names)):
+            pts.append({n: sg * rng.choice([0.3125, 1.0625, 2.5625]) for n, sg in zip(names, signs)})
+    for _ in range(k):
+        style = rng.random()
+        if style < 0.3:
+            pts.append({n: rng.choice([1e-9, -1e-9, 1e-7, 1e-3, 0.5, 1.0, 5e8, -2e8]) for n in names})
+        else:
+            pts.append({n: rng.randint(-16, 16) / 8 + 1 / 16 for n in names})
+    return pts
+
+
 def search(ctx, rep):
+    from optyx import Variable
+    from optyx.core.parameters import Parameter
+
     rng = core.Rng(ctx["seed"] + 104729)
+    # (1) the cases on which model and implementation disagree, at many points, through both builders
+    seen = set()
+    for sx, names, pvals in list(ctx.get("_c01_mismatch_cases", []))[:400]:
+        if (sx, tuple(names)) in seen:
+            continue
+        seen.add((sx, tuple(names)))
+        try:
+            e = deser(sx)
+        except Exception:  # noqa: BLE001
+            continue
+        byname = {v.name: v for v in gen.expr_vars(e)}
+        V = [byname.get(n, Variable(n)) for n in names]
+        if any(n not in names for n in byname):
+            continue
+        for pt in probe_points(rng, names, 24):
+            for thr in (0, 400):
+                for chk, tagk in ((check_exact, "exact"), (check_loose, "loose"), (lambda *a: check_point(a[0], a[1], a[2], {}, a[3]), None)):
+                    r = chk(e, V, pt, thr)
+                    if r == "skip":
+                        continue
+                    if r is not None and r.get("kind") != "int_negative_power":
+                        r.update({"expr": sx, "vars": names, "point": pt, "threshold": thr, "params": {}})
+                        if tagk:
+                            r["judge"] = tagk
+                        return r
+                    break
     for tag, e, V, pt, pset in magnitude_cases(rng, True):
         for p, v in pset.items():
             p.set(v)
@@ -1114,7 +1722,11 @@ def replay(payload) -> bool:
         if m is not None and hasattr(m, "_expressions"):
             stack += [x for row in m._expressions for x in row]
     pt = {k: float(v) for k, v in f["point"].items()}
-    if f.get("exact"):
+    if f.get("judge") == "loose":
+        r = check_loose(e, V, pt, int(f.get("threshold", 400)))
+        print("check_loose:", r)
+        return r in (None, "skip")
+    if f.get("exact") or f.get("judge") == "exact":
         r = check_exact(e, V, pt, int(f.get("threshold", 400)))
         print("check_exact:", r)
         return r in (None, "skip")
